@@ -279,6 +279,31 @@ def _link_known_predicates(ex, st, me, lst, pos, tok, current):
         del ex.goals[marks:]
 
 
+def _closure_value(ex, st, f, tok):
+    """the boolean value of the pure predicate closure f on the token record tok, as one formula: the disjunction over
+    the closure's (exhaustive) paths of path-condition & result; None if the closure leaves the modelled subset"""
+    marks = len(ex.goals)
+    try:
+        probe = st.fork()
+        n0 = len(probe.pc)
+        parts = []
+        for s_i, v_i in ex.call(f, [tok], {}, probe):
+            b = ex.truth(v_i, s_i)
+            zb = z3.BoolVal(b) if isinstance(b, bool) else b
+            extra = list(s_i.pc[n0:])
+            parts.append(z3.And(*(extra + [zb])) if extra else zb)
+        if not parts:
+            return None
+        return z3.Or(*parts) if len(parts) > 1 else parts[0]
+    except (OutsideSubset, PyExc) as e:
+        import os
+        if os.environ.get('PYVC_DEBUG'):
+            print('closure_value:', type(e).__name__, e)
+        return None
+    finally:
+        del ex.goals[marks:]
+
+
 class _TokenMatchingCallsite:
     """modular use of the two verified cases above: assert the precondition, create the result, assume exactly the
     `ensures` strings of the verified case, and link MATCH to the concrete predicate passed (a pure closure)"""
@@ -337,16 +362,10 @@ class _TokenMatchingCallsite:
             cum = z3.IntVal(0)
             for it in list(st.lists[lst.lid]):
                 if it[0] == 'el' and isinstance(it[1], Rec):
-                    try:
-                        marks = len(ex.goals)
-                        probe = st.fork()
-                        rr = ex.call(single, [it[1]], {}, probe)
-                        if len(rr) == 1 and len(rr[0][0].pc) == len(st.pc):
-                            b = ex.truth(rr[0][1], rr[0][0])
-                            m = ex.spec_fn('MATCH', [funcs, me, SInt(z3.simplify(cum))], {}, st)[0][1]
-                            st.assume(m.z == (z3.BoolVal(b) if isinstance(b, bool) else b))
-                    except (OutsideSubset, PyExc):
-                        del ex.goals[marks:]
+                    val = _closure_value(ex, st, single, it[1])
+                    if val is not None:
+                        m = ex.spec_fn('MATCH', [funcs, me, SInt(z3.simplify(cum))], {}, st)[0][1]
+                        st.assume(m.z == val)
                 cum = cum + ex.item_len(st, it)
         s_none = st.fork()
         if reverse:
@@ -717,6 +736,9 @@ class get_parent_name_c:
     serves = ['C12']
 
 
+get_parent_name_c.make_result = staticmethod(lambda ex, st, env: [(st.fork(), None), (st, fresh_str('parent_name'))])
+
+
 # --------------------------------------------------------------------------------- get_token_at_offset (C03)
 
 _LEAFVAL = z3.Function('LEAF_value', z3.IntSort(), z3.StringSort())
@@ -876,3 +898,271 @@ class get_identifiers_c:
 
 
 REG.add('sqlparse.sql.IdentifierList.get_identifiers', 'body', get_identifiers_c)
+
+
+# --------------------------------------------------------------------------------- name accessors: functional contracts (C12)
+
+_NAMEP_SRC = ('lambda tk: (tk.ttype == T.Name or tk.ttype == T.Wildcard or tk.ttype == T.String.Symbol '
+              'or (keywords and tk.ttype == T.Keyword) or isinstance(tk, (Identifier, Function)))')
+
+
+class get_first_name_fwd:
+    """_get_first_name(idx, keywords=..., real_name=...) scanning forward: the FIRST child at a position >= idx (0 for
+    idx None / 0) that is a name leaf (Name, Wildcard, quoted Symbol; also a plain Keyword when keywords=True) or a nested
+    Identifier / Function decides the answer (J = that child, found by the verified search helper under the predicate
+    NAMEP written from the property text): no such child -> None; a leaf -> its value without the surrounding quotes."""
+    exec_class = HeapExec
+    params = {'self': make_identifier, 'idx': 'int', 'reverse': lambda ex, st: False, 'keywords': 'bool',
+              'real_name': 'bool'}
+    requires = ['idx >= 0']
+    ghost = {'NAMEP': _NAMEP_SRC}
+    loops = {'0': {'cut': True,
+                   'inv': ['NOMATCH(NAMEP, self, idx, idx + IT0.K)'],
+                   'lemmas': ['(NOMATCH(NAMEP, self, idx, idx + IT0.K + 1) == (NOMATCH(NAMEP, self, idx, idx + IT0.K) '
+                              'and not MATCH(NAMEP, self, idx + IT0.K)))',
+                              '(MATCH(NAMEP, self, idx + IT0.K) == NAMEP(self.tokens[idx + IT0.K])) '
+                              'if idx + IT0.K < len(self.tokens) else True']}}
+    post_bind = {'J': 'self._token_matching(NAMEP, idx)'}
+    ensures = ['result is None if J[1] is None else True',
+               'result == remove_quotes(J[1].value) if (J[1] is not None and not J[1].is_group) else True']
+    raises = []
+    serves = ['C12']
+
+
+REG.add('sqlparse.sql.TokenList._get_first_name', 'first name, forward', get_first_name_fwd)
+
+
+class get_first_name_rev:
+    """_get_first_name(reverse=True) (idx None): the LAST child that is a name leaf or a nested Identifier / Function
+    decides (J = result of the verified reverse search from the end of the list)"""
+    exec_class = HeapExec
+    params = {'self': make_identifier, 'idx': lambda ex, st: None, 'reverse': lambda ex, st: True, 'keywords': 'bool',
+              'real_name': 'bool'}
+    requires = []
+    ghost = {'NAMEP': _NAMEP_SRC}
+    loops = {'0': {'cut': True,
+                   'inv': ['NOMATCH(NAMEP, self, len(self.tokens) - IT0.K, len(self.tokens))'],
+                   'lemmas': ['(NOMATCH(NAMEP, self, len(self.tokens) - IT0.K - 1, len(self.tokens)) == '
+                              '(NOMATCH(NAMEP, self, len(self.tokens) - IT0.K, len(self.tokens)) '
+                              'and not MATCH(NAMEP, self, len(self.tokens) - IT0.K - 1)))',
+                              '(MATCH(NAMEP, self, len(self.tokens) - IT0.K - 1) == '
+                              'NAMEP(self.tokens[len(self.tokens) - IT0.K - 1])) '
+                              'if IT0.K < len(self.tokens) else True']}}
+    post_bind = {'J': 'self._token_matching(NAMEP, len(self.tokens) + 1, reverse=True)'}
+    ensures = ['result is None if J[1] is None else True',
+               'result == remove_quotes(J[1].value) if (J[1] is not None and not J[1].is_group) else True']
+    raises = []
+    serves = ['C12']
+
+
+REG.add('sqlparse.sql.TokenList._get_first_name', 'first name, reverse', get_first_name_rev)
+
+
+_NAMEP_NODE = ast.parse(_NAMEP_SRC, mode='eval').body
+
+
+class _GetFirstNameCallsite:
+    """modular use of the two verified cases of _get_first_name (forward from idx / reverse over the whole list): assert
+    the precondition, compute J with the verified search helper under the predicate NAMEP, assume exactly the `ensures`
+    of the verified case.  For a nested Identifier / Function as first name the result comes from that node's accessor
+    (by its own contract)."""
+
+    @staticmethod
+    def model(ex, self_val, args, kw, st):
+        from pyvc.models import bind_params, _const_default, repo_fn_node
+        from pyvc.symex import ClosureEnv
+        q = 'sqlparse.sql.TokenList._get_first_name'
+        env = bind_params(ex, repo_fn_node(q), self_val, args, kw, st, lambda d: _const_default(ex, d, None))
+        idx, reverse, keywords, real_name = env['idx'], env['reverse'], env['keywords'], env['real_name']
+        if not ex.fn.startswith('sqlparse.sql.') or not isinstance(reverse, bool):
+            return _StrOrNone.model(ex, self_val, args, kw, st)
+        if reverse and idx is not None:
+            raise OutsideSubset('_get_first_name(idx, reverse=True)')
+        me = env['self']
+        namep = Func('sqlparse.sql.<contract>.NAMEP', node=_NAMEP_NODE, closure=ClosureEnv({'keywords': keywords}))
+        start = SInt(z3.IntVal(0)) if idx is None else idx
+        if not reverse:
+            ex.goal('%s/call:TokenList._get_first_name.pre#0' % ex.fn, st, ex.z_int(start) >= 0, {'requires': 'idx >= 0'})
+            st.assume(ex.z_int(start) >= 0)
+        tmp = st.fork()
+        tmp.env = {'self': me, 'NAMEP': namep, 'START': start}
+        expr = ('self._token_matching(NAMEP, len(self.tokens) + 1, reverse=True)' if reverse
+                else 'self._token_matching(NAMEP, START)')
+        old_spec, ex._in_spec = getattr(ex, '_in_spec', False), True
+        try:
+            rr = ex.eval(ast.parse(expr, mode='eval').body, tmp)
+        finally:
+            ex._in_spec = old_spec
+        out = []
+        for s_r, j in rr:
+            if not smt.feasible(s_r.pc):
+                continue
+            s_r.env = dict(st.env)
+            tok = j[1]
+            if tok is None:
+                out.append((s_r, None))
+                continue
+            for s_g, isg in ex.decide(s_r, ex.truth(ex.getattr(tok, 'is_group', s_r), s_r)):
+                if not isg:
+                    t2 = s_g.fork()
+                    t2.env = {'tok': tok}
+                    ex._in_spec = True
+                    try:
+                        vv = ex.eval(ast.parse('remove_quotes(tok.value)', mode='eval').body, t2)
+                    finally:
+                        ex._in_spec = old_spec
+                    for s_v, v in vv:
+                        s_v.env = dict(st.env)
+                        out.append((s_v, v))
+                else:
+                    # a nested Identifier / Function: its own accessor answers (call by that accessor's contract)
+                    for s_n, rn in ex.decide(s_g, ex.truth(real_name, s_g)):
+                        meth = 'get_real_name' if rn else 'get_name'
+                        f = ex.getattr(tok, meth, s_n)
+                        out.extend(ex.call(f, [], {}, s_n))
+        return out
+
+
+REG['sqlparse.sql.TokenList._get_first_name'] = _GetFirstNameCallsite
+
+
+def _explicit_shape(ex, st, rec):
+    """the receiver is a node built with an explicit children list (one of the C12 shapes or a node nested in one)"""
+    return isinstance(rec, Rec) and st.objs[rec.oid].get('__shape__') is True
+
+
+def _name_accessor_callsite(q):
+    class _M:
+        """call-site form of get_name / get_real_name / get_alias: on a receiver whose children list is explicit (the
+        C12 shapes) the loop-free accessor body is executed in place (it is part of the caller's verified text, like the
+        other thin wrappers); for any other receiver only 'a str or None' is known (the verified `total` case)"""
+
+        @staticmethod
+        def model(ex, self_val, args, kw, st):
+            if not _explicit_shape(ex, st, self_val) or not ex.fn.startswith('sqlparse.sql.'):
+                return _StrOrNone.model(ex, self_val, args, kw, st)
+            from pyvc.models import call_repo_inline, repo_fn_node
+            return call_repo_inline(ex, q, repo_fn_node(q), self_val, args, kw, st)
+    return _M
+
+
+for _q in ('sqlparse.sql.NameAliasMixin.get_real_name', 'sqlparse.sql.TokenList.get_name',
+           'sqlparse.sql.NameAliasMixin.get_alias'):
+    REG[_q] = _name_accessor_callsite(_q)
+
+
+# --------------------------------------------------------------------------------- the Identifier shapes of C12
+
+def _mk_leaf(ex, st, parent, name, kinds, value=None, normalized=None, name_leaf=False):
+    W = ex.W
+    if len(kinds) == 1:
+        tt = W.tt(kinds[0])
+    else:
+        tt = fresh(name + '_tt', W.TT)
+        st.assume(z3.Or(*[tt == W.tt(k) for k in kinds]))
+    val = z3.StringVal(value) if value is not None else fresh(name + '_val', z3.StringSort())
+    st.assume(z3.Length(val) >= 1)
+    is_kw = all(k in W.T.Keyword for k in kinds)
+    norm = z3.StringVal(normalized) if normalized is not None else val
+    f = {'CLS': W.cls_const[W.sql.Token], 'value': SStr(val), 'TXT': SStr(val), 'is_group': False, 'ttype': STy(tt),
+         'parent': parent, 'is_whitespace': False, 'is_keyword': is_kw, 'is_newline': False, 'normalized': SStr(norm)}
+    if name_leaf:
+        f['__name_leaf__'] = True
+    return ex.new_token(st, f)
+
+
+def _mk_identifier(ex, st, parent, name, items):
+    """an Identifier node with the given explicit children ('el' records or ('ws', tag) runs of >= 1 whitespace tokens)"""
+    W = ex.W
+    g = ex.new_token(st, {'CLS': W.cls_const[W.sql.Identifier], 'is_group': True, 'ttype': None, 'TXT': None,
+                          'value': None, 'is_whitespace': False, 'is_keyword': False, 'is_newline': False,
+                          'normalized': None, 'parent': parent, '__shape__': True})
+    lst = []
+    for it in items:
+        if isinstance(it, tuple) and it[0] == 'ws':
+            # a run of >= 1 whitespace tokens: one explicit whitespace leaf followed by any number of further ones
+            tt = fresh(name + '_' + it[1] + '_tt', W.TT)
+            st.assume(z3.Or(tt == W.tt(W.T.Whitespace), tt == W.tt(W.T.Newline)))
+            val = fresh(name + '_' + it[1] + '_val', z3.StringSort())
+            st.assume(z3.Length(val) >= 1)
+            first = ex.new_token(st, {'CLS': W.cls_const[W.sql.Token], 'value': SStr(val), 'TXT': SStr(val),
+                                      'is_group': False, 'ttype': STy(tt), 'parent': g, 'is_whitespace': True,
+                                      'is_keyword': False, 'is_newline': SBool(tt == W.tt(W.T.Newline)),
+                                      'normalized': SStr(val)})
+            lst.append(('el', first))
+            sid = ex.new_seg(st, uni={'parent': g, '__values_nonempty__': True, '__ttype_in__': W.T.Whitespace},
+                             name=name + '_' + it[1])
+            lst.append(('seg', sid))
+        else:
+            rec = it(g) if callable(it) else it
+            st.objs[rec.oid]['parent'] = g
+            lst.append(('el', rec))
+    lref = ex.new_list(st, lst)
+    st.objs[g.oid]['tokens'] = lref
+    txt = ex.list_txt(st, lref)
+    for k in ('TXT', 'value', 'normalized'):
+        st.objs[g.oid][k] = SStr(txt)
+    return g
+
+
+C12_SHAPES = {
+    # name            qualifier  AS     alias
+    'name': (False, False, False),
+    'qualifier.name': (True, False, False),
+    'name AS alias': (False, True, True),
+    'qualifier.name AS alias': (True, True, True),
+    'name alias': (False, False, True),
+    'qualifier.name alias': (True, False, True),
+}
+
+
+def make_c12_shape(shape):
+    qual, as_kw, alias = C12_SHAPES[shape]
+
+    def mk(ex, st):
+        T = ex.W.T
+        names = (T.Name, T.String.Symbol)
+        items = []
+        st.ghost['QUAL'] = st.ghost['ALIAS'] = None
+        if qual:
+            q_ = _mk_leaf(ex, st, None, 'qual', names, name_leaf=True)
+            st.ghost['QUAL'] = q_
+            items += [q_, _mk_leaf(ex, st, None, 'dot', (T.Punctuation,), value='.')]
+        n_ = _mk_leaf(ex, st, None, 'name', names, name_leaf=True)
+        st.ghost['NAME'] = n_
+        items.append(n_)
+        if as_kw:
+            askw = _mk_leaf(ex, st, None, 'as', (T.Keyword,), normalized='AS')
+            st.assume(z3.Length(ex.z_str(st.objs[askw.oid]['value'])) == 2)
+            items += [('ws', 'ws1'), askw]
+        if alias:
+            a_ = _mk_leaf(ex, st, None, 'alias', names, name_leaf=True)
+            st.ghost['ALIAS'] = a_
+            items += [('ws', 'ws2'), lambda g: _mk_identifier(ex, st, g, 'aliasnode', [a_])]
+        return _mk_identifier(ex, st, Opaque('some-parent'), 'self', items)
+    return mk
+
+
+def _c12_case(q, shape, ensures):
+    ns = {'__doc__': 'C12 shape "%s": the accessor returns what is written (NAME / QUAL / ALIAS are the name leaves of '
+                     'the shape, values and quoting arbitrary, every whitespace run arbitrary and non-empty)' % shape,
+          'exec_class': HeapExec, 'params': {'self': make_c12_shape(shape)}, 'requires': [], 'ensures': ensures,
+          'raises': [], 'serves': ['C12']}
+    case = 'shape: ' + shape
+    REG.add(q, case, type('c12_' + q.rsplit('.', 1)[1], (), ns))
+    return (q, case)
+
+
+C12_SHAPE_CASES = []
+for _shape, (_q, _a, _al) in C12_SHAPES.items():
+    C12_SHAPE_CASES.append(_c12_case('sqlparse.sql.NameAliasMixin.get_real_name', _shape,
+                                     ['result == remove_quotes(NAME.value)']))
+    C12_SHAPE_CASES.append(_c12_case('sqlparse.sql.TokenList.get_parent_name', _shape,
+                                     ['result == remove_quotes(QUAL.value)' if _q else 'result is None']))
+    C12_SHAPE_CASES.append(_c12_case('sqlparse.sql.NameAliasMixin.get_alias', _shape,
+                                     ['result == remove_quotes(ALIAS.value)' if _al else 'result is None']))
+    C12_SHAPE_CASES.append(_c12_case('sqlparse.sql.TokenList.has_alias', _shape,
+                                     ['result == %s' % bool(_al)]))
+    C12_SHAPE_CASES.append(_c12_case('sqlparse.sql.TokenList.get_name', _shape,
+                                     ['result == (remove_quotes(ALIAS.value) or remove_quotes(NAME.value))' if _al
+                                      else 'result == remove_quotes(NAME.value)']))
